@@ -6,7 +6,7 @@ import Uft.Model.Report
            or "invalid-sort-key"
    task <maxStack> <-s string|-> | | <task 0 records> | …
         -> same row format, key = task index
-   diff <maxStack> <avgMode> <-s string|-> <column> <abs 0|1> | <id:size …> | base streams … | # | pair streams …
+   diff <maxStack base>:<maxStack pair> <avgMode> <-s string|-> <column> <abs 0|1> | <id:size …> | base streams … | # | pair streams …
         -> "drows <base row>/<pair row>;…"
    nodes <maxStack> | | streams…   -> unsorted raw node table (name order), sum/rec unreduced
    record token: <E|X|L|V>:<time>:<depth>:<function id>
@@ -84,13 +84,14 @@ def handle (ws : List String) : String :=
   | ["diff", ms, avg, sk, col, ab] :: sizes :: secs =>
     let bsecs := secs.takeWhile (· ≠ ["#"])
     let psecs := (secs.dropWhile (· ≠ ["#"])).drop 1
-    match ms.toNat?, avg.toNat?, col.toNat?, parseStreams bsecs, parseStreams psecs with
-    | some ms, some avg, some col, some bs, some ps =>
+    let msl := (ms.splitOn ":").map String.toNat?
+    match msl, avg.toNat?, col.toNat?, parseStreams bsecs, parseStreams psecs with
+    | [some ms, some msp], some avg, some col, some bs, some ps =>
       match setupDiff (convertSortKeys (optKeys sk) avg) with
       | none => "invalid-sort-key"
       | some keys =>
         let sz := parseSizes sizes
-        let rows := diffByKeys keys col (ab = "1") (funcRows ms sz bs) (funcRows ms sz ps)
+        let rows := diffByKeys keys col (ab = "1") (funcRows ms sz bs) (funcRows msp sz ps)
         "drows " ++ ";".intercalate (rows.map fun d => showRow d.base ++ "/" ++ showRow d.pair)
     | _, _, _, _, _ => "bad-op"
   | ["nodes", ms] :: _ :: secs =>
